@@ -77,7 +77,7 @@ func init() {
 			{Name: "l2-ticker", Fn: scnC16L2, Weight: 1},
 			{Name: "l2-stalled-loop", Fn: scnC16Stall, Weight: 1},
 		},
-		Rule: "l1: histories of arrivals separated by fake-clock sleeps with cleanup calls whose cut-offs lie strictly between arrival instants (and far past / far future), keep-alive records of waiting sessions, waiting logins superseded by a later login of the same PID, one run in twelve with 150-350 sessions and logins waiting at once; " +
+		Rule: "l1: histories of arrivals separated by fake-clock sleeps with cleanup calls whose cut-offs lie strictly between arrival instants (and far past / far future), keep-alive records of waiting sessions, waiting logins superseded by a later login of the same PID, one run in twelve with 150-350 sessions and logins waiting at once (mixed, or all of one kind arriving within three seconds and older than one sweep's cut-off), arrivals 0/300/700/950 ms after the second; " +
 			"l2: the real Read loop with its real one-minute ticker, second half arriving after a gap swept over 1..59 s and 121 s..10 min of simulated time (60-120 s generated, not judged); " +
 			"l2-stalled-loop: the Read goroutine is withheld for 35-85 simulated seconds (slow-thread fault) so that ticks are served late, halves 5-54 s apart must still correlate; " +
 			"non-trivial = a cleanup call (or ticker firing) happened between the two halves of a session; distinct = distinct (history hash, schedule hash)",
@@ -362,7 +362,15 @@ func genC09History(t *simrt.Tape) *History {
 		}
 		ops = append(ops, HOp{Kind: "event", S: 0, E: i})
 	}
+	// variant: the earlier session was short and its login line is very late - all its records
+	// arrived more than two minutes before, so the held session has been swept away when the
+	// login arrives; that login then waits, and is still waiting when the PID is reused
+	sweptA := false
 	if splitA == len(a.Events) {
+		if t.Choose(4, "sweptA") == 3 {
+			sweptA = true
+			ops = append(ops, HOp{Kind: "sleep", Ms: 130000}, HOp{Kind: "cleanup", CutMs: -60000})
+		}
 		ops = append(ops, HOp{Kind: "login", S: 0})
 	}
 	// variant: the sshd stream runs ahead of the audit stream, so the login of the new sshd
@@ -401,10 +409,17 @@ func genC09History(t *simrt.Tape) *History {
 		b.Events = append(b.Events, k.UserMsg("CRED_DISP", b.Ses, pid, b.UID, true, 0))
 	}
 	splitB := t.Choose(len(b.Events)+1, "splitB")
+	if sweptA {
+		splitB = 0 // the new login replaces the one still waiting before the new session opens
+	}
 	var bops []HOp
 	for i := range b.Events {
 		if i == splitB && !earlyB {
 			bops = append(bops, HOp{Kind: "login", S: 1})
+			if sweptA {
+				// separated in time, so that both streams agree that the login came first
+				bops = append(bops, HOp{Kind: "sleep", Ms: 2000})
+			}
 		}
 		bops = append(bops, HOp{Kind: "event", S: 1, E: i})
 	}
@@ -514,7 +529,15 @@ func scnC16L1(rc *RunCtx) {
 		n = 150 + t.Choose(200, "crowd.n")
 		rc.Sim.Count("c16.crowd")
 	}
-	// timeline in whole seconds; cleanup cut-offs at x.5 s so that no age ever equals a cut-off
+	// the crowd may be of one kind and arrive within a few seconds, far more than any batch
+	// size: 1 = only logins wait, 2 = only sessions wait (0 = mixed, spread over the timeline)
+	crowdKind := 0
+	if n >= 150 {
+		crowdKind = t.Choose(3, "crowd.kind")
+	}
+	// arrivals fall off ms after a whole second (not only on second boundaries)
+	off := []int{0, 700, 300, 950}[t.Choose(4, "subsecond")]
+	// timeline in whole seconds (+ off ms); cleanup cut-offs at x.5 s so that no age ever equals a cut-off
 	type arrival struct {
 		at int // seconds
 		op HOp
@@ -532,6 +555,9 @@ func scnC16L1(rc *RunCtx) {
 		s.Login = GenLogin(t, pid, si+1)
 		s.Events = append(s.Events, k.Login(s.Ses, pid, s.UID))
 		loginFirst := t.Choose(2, "loginfirst") == 1
+		if crowdKind != 0 {
+			loginFirst = crowdKind == 1
+		}
 		if !loginFirst && t.Choose(4, "short.session") == 3 {
 			// a short session: it is over (credential disposal held with its LOGIN record) before
 			// its login line arrives; still a waiting half like any other
@@ -545,6 +571,9 @@ func scnC16L1(rc *RunCtx) {
 		w.Sessions = append(w.Sessions, s)
 		t1 := 1 + t.Choose(horizon-10, "t1")
 		t2 := t1 + 1 + t.Choose(horizon-t1-2, "gap")
+		if crowdKind != 0 {
+			t1, t2 = 1+t1%3, horizon-2-t2%3
+		}
 		if loginFirst && t1 > 1 && t.Choose(4, "superseded") == 3 {
 			// an earlier sshd process with the same PID logged in but never got an audit session;
 			// its login still waits when this one arrives and is superseded by it
@@ -588,8 +617,15 @@ func scnC16L1(rc *RunCtx) {
 		}
 		cls = append(cls, cl{at, cut})
 	}
+	if crowdKind != 0 {
+		// one sweep in the middle of the wait that has to discard the whole crowd
+		cls = append(cls, cl{20, 2*10 + 1})
+	}
 	// build ops in time order: at each second first the arrivals, then the cleanups
 	var ops []HOp
+	if off > 0 {
+		ops = append(ops, HOp{Kind: "sleep", Ms: off})
+	}
 	now := 0
 	for sec := 0; sec <= horizon+1; sec++ {
 		var here []HOp
@@ -614,7 +650,7 @@ func scnC16L1(rc *RunCtx) {
 		ops = append(ops, here...)
 		for _, c := range chere {
 			// cut-off relative to now in ms: cutAbs half-seconds
-			ops = append(ops, HOp{Kind: "cleanup", CutMs: c.cutAbs*500 - sec*1000})
+			ops = append(ops, HOp{Kind: "cleanup", CutMs: c.cutAbs*500 - (sec*1000 + off)})
 		}
 	}
 	h := &History{W: w, Ops: ops}
